@@ -1243,10 +1243,18 @@ func genMutable(ctx TaggedStructContext, genMethod fp.Set[string]) fp.Set[string
 			`, mutableType, mutableFields)
 	}
 
+	// the mutable twin embeds an embedded field under the type's own name, exported or not
+	mutableFieldName := func(f metafp.StructField) string {
+		if f.Embedded {
+			return f.Name
+		}
+		return publicName(f.Name)
+	}
+
 	if ts.Info.Method.Get("AsMutable").IsEmpty() {
 
 		fields := iterator.Map(iterator.FromSeq(allFields), func(f metafp.StructField) string {
-			return fmt.Sprintf(`%s : r.%s`, publicName(f.Name), f.Name)
+			return fmt.Sprintf(`%s : r.%s`, mutableFieldName(f), f.Name)
 		}).MakeString(",\n")
 
 		fmt.Fprintf(w, `
@@ -1266,7 +1274,7 @@ func genMutable(ctx TaggedStructContext, genMethod fp.Set[string]) fp.Set[string
 	if !isMethodDefined(workingPackage, mutableTypeName, "AsImmutable") {
 
 		fields := iterator.Map(iterator.FromSeq(allFields), func(f metafp.StructField) string {
-			return fmt.Sprintf(`%s : r.%s`, f.Name, publicName(f.Name))
+			return fmt.Sprintf(`%s : r.%s`, f.Name, mutableFieldName(f))
 		}).MakeString(",\n")
 
 		fmt.Fprintf(w, `
